@@ -41,6 +41,18 @@ FIRST_MISSED = {
     'C15_n1': 'missed at first (catastrophic-reduction branch of svd_theta needs kept*100 < #singular values); tiny-rank cases + label/leg oracle added',
     'C17_n1': 'missed at first (no segment lattices in the HDF5 round trip; missing attributes not compared)',
     'C18_n2': 'missed at first (group_sites>1 never drawn in the resume stream)',
+    'C01_p1': 'missed at first (assigned npc values always stored every block); assign stream with independent block sparsity added',
+    'C03_p1': 'missed at first (MPO.make_U_I never called; no equal-dtype steps); mpo-object stream (whole-object fingerprints of MPO, Site, model) added',
+    'C03_p2': 'missed at first (Site fingerprinted only after the model was built; no sum grid entries with unit prefactor); mpo-object stream added',
+    'C04_p2': 'missed at first (no in-place kernel ever ran on non-contiguous blocks); strided-views stream added',
+    'C06_p1': 'missed at first (flip_charges_qconj etc. only applied to plain legs); pipe-methods stream + T06_flip_pipe added',
+    'C07_p1': 'missed at first (one dtype per state in every constructor stream); mixed-dtype stream added',
+    'C07_p2': 'missed at first (Schmidt values compared at default bonds only); all bond indices the API accepts are now compared',
+    'C08_p1': 'missed at first (mutinf_two_site only with n=1); option-space coverage table for all measurement methods added',
+    'C11_p1': 'missed at first (explicit_plus_hc never set on C11 operands); plus_hc operand stream added',
+    'C14_p2': 'missed at first (truncation errors injected at MPO.apply, above the zip_up sum); injection at truncate level for SVD/zip_up added',
+    'C16_p1': 'missed at first (GMRES restarts with |b| != 1 not checked per cycle); gmresr stream + KrylovGmres model added',
+    'C18_p2': 'missed at first (start_time never drawn; no checkpoint at evolved_time == 0)',
 }
 for name in sorted(os.listdir(src)):
     d = os.path.join(src, name)
